@@ -569,8 +569,28 @@ theorem reset_sim (g : Gen) (h : g.WF) :
 
 /-- a clone is an equal state (the polynomial generator has none) -/
 theorem clone_eq (g g' : Gen) (h : g.clone = some g') : g' = g := by
-  cases g <;> simp [Gen.clone] at h <;> exact h.symm
+  cases g with
+  | linear _ _ _ _ => simp [Gen.clone] at h; exact h.symm
+  | factor _ _ _ _ _ _ => simp [Gen.clone] at h; exact h.symm
+  | poly _ _ _ _ => simp [Gen.clone] at h
+  | polyN _ _ _ => simp [Gen.clone] at h
+  | boundary l i r elem pos =>
+    simp only [Gen.clone, mkBoundary] at h
+    by_cases he : elem < 2
+    · rw [if_pos he] at h; cases h
+    · rw [if_neg he] at h; cases h; rfl
+  | values text next curr =>
+    simp only [Gen.clone, mkValues] at h
+    cases hc : cdouble text with
+    | ok v rest => rw [hc] at h; cases h; rfl
+    | zero => rw [hc] at h; cases h
+    | err e => rw [hc] at h; cases h
 
+/-- a generator made by its public creator can be cloned -/
+theorem clone_some_boundary (l i r : Rat) (elem pos : Nat) (h : 2 ≤ elem) :
+    (Gen.boundary l i r elem pos).clone = some (.boundary l i r elem pos) := by
+  simp only [Gen.clone, mkBoundary]
+  rw [if_neg (by omega)]
 
 /-! ### malformed descriptions -/
 
